@@ -28,7 +28,22 @@ type Decision struct {
 	Point string `json:"p,omitempty"`
 }
 
+// Hold is a directed stall: the task, once parked at yield point At, is not
+// eligible to run until yield point For has been released N more times (by
+// anyone), or Max virtual time has passed.
+type Hold struct {
+	At  string        `json:"at"`
+	For string        `json:"for"`
+	N   int           `json:"n,omitempty"`
+	Max time.Duration `json:"max,omitempty"`
+}
+
 type Task struct {
+	hold      *Hold
+	holdInfo  *Hold
+	held      bool
+	heldSince time.Duration
+	heldBase  int
 	name   string
 	kind   string // "actor", "bg" (background: health checks, conns), "repo"
 	wake   chan struct{}
@@ -59,6 +74,8 @@ type Sim struct {
 	parked   []*Task
 	ordinals map[string]int
 	taken    map[int64]bool
+	pointN   map[string]int
+	Holds    int // holds that actually took effect
 	actors   int // actors not yet finished
 	arrival  chan struct{}
 	active   atomic.Bool
@@ -88,6 +105,7 @@ func NewSim(seed int64, knobs SchedKnobs, h *History) *Sim {
 		byName:   map[string]*Task{},
 		ordinals: map[string]int{},
 		taken:    map[int64]bool{},
+		pointN:   map[string]int{},
 		arrival:  make(chan struct{}, 1),
 		disabled: map[string]bool{},
 		knobs:    knobs,
@@ -253,10 +271,64 @@ func (s *Sim) park(t *Task, point string, arg any) {
 	}
 	s.mu.Lock()
 	t.point, t.arg, t.parked = point, arg, true
+	if h := t.hold; h != nil && h.At == point {
+		t.held, t.heldSince, t.heldBase = true, s.Now(), s.pointN[h.For]
+		t.holdInfo = h
+		t.hold = nil
+		s.Holds++
+		s.H.Add(Event{Kind: "fault", Task: t.name, Info: "hold:" + h.At + "->" + h.For})
+	}
 	s.parked = append(s.parked, t)
 	s.mu.Unlock()
 	s.notify()
 	<-t.wake
+}
+
+// SetHold arms a hold for the calling goroutine's task (one shot).
+func (s *Sim) SetHold(h *Hold) {
+	gid := curGID()
+	s.mu.Lock()
+	if t := s.tasks[gid]; t != nil {
+		t.hold = h
+	}
+	s.mu.Unlock()
+}
+
+// NotePoint counts an occurrence of a pseudo yield point (e.g. "cmd.ret").
+func (s *Sim) NotePoint(point string) {
+	s.mu.Lock()
+	s.pointN[point]++
+	s.mu.Unlock()
+}
+
+// eligible filters out tasks whose hold has not expired. It returns the
+// eligible tasks and the shortest remaining hold.
+func (s *Sim) eligible(parked []*Task) ([]*Task, time.Duration) {
+	s.mu.Lock()
+	defer s.mu.Unlock()
+	var out []*Task
+	minLeft := time.Duration(0)
+	now := s.Now()
+	for _, t := range parked {
+		if t.held && t.holdInfo != nil {
+			h := t.holdInfo
+			n := h.N
+			if n <= 0 {
+				n = 1
+			}
+			left := t.heldSince + h.Max - now
+			if s.pointN[h.For]-t.heldBase >= n || left <= 0 {
+				t.held = false
+			} else {
+				if minLeft == 0 || left < minLeft {
+					minLeft = left
+				}
+				continue
+			}
+		}
+		out = append(out, t)
+	}
+	return out, minLeft
 }
 
 // TaskName returns the name of the calling goroutine's task ("" if none).
@@ -314,7 +386,25 @@ func (s *Sim) Run() error {
 			return nil
 		}
 		s.steps++
+		all := parked
+		parked, holdLeft := s.eligible(parked)
 		choice := s.decide(parked)
+		if choice == nil && len(parked) == 0 && len(all) > 0 {
+			// only held tasks are parked: let time pass until something else
+			// happens or the shortest hold runs out
+			s.trace = append(s.trace, Decision{Task: advanceName, Point: "hold"})
+			select {
+			case <-s.arrival:
+			default:
+			}
+			timer := s.NewTimer(holdLeft)
+			select {
+			case <-s.arrival:
+			case <-timer.C:
+			}
+			timer.Stop()
+			continue
+		}
 		if choice == nil {
 			d := time.Hour
 			pt := ""
@@ -341,6 +431,9 @@ func (s *Sim) Run() error {
 		s.tick()
 		synctest.Wait()
 		s.unpark(choice)
+		s.mu.Lock()
+		s.pointN[choice.point]++
+		s.mu.Unlock()
 		s.last = choice
 		if s.onStep != nil {
 			s.onStep(choice)
